@@ -4,7 +4,7 @@
   actors/miner/src/{partition_state,expiration_queue,bitfield_queue}.rs, the Level-1 specification
   `BA.Sector.Spec`, and the model `BA.Sector.Alloc` of `State::allocate_sector_numbers`.
 -/
-import BA.Lemmas.Sector.FullStep
+import BA.Lemmas.Sector.FullStep2
 import BA.Model.Sector.Alloc
 
 namespace BA.Sector
@@ -71,8 +71,9 @@ theorem status_refines_level1_partial (env : Env) (p p' : Partition) (op : Op) (
 /-! ### memo = recomputed value (Level 2 refines Level 1 on the summaries) -/
 
 /-- what is required of a call for the memo theorem: bitfield arguments, table infos of distinct
-    sectors for add_sectors, and the call is one of the nine methods of `TierB` -/
-def MemoOp (tbl : Table) (op : Op) : Prop := OpWF op ∧ OpWF2 tbl op ∧ TierB op
+    sectors for add_sectors, and the call is one of the eleven methods of `TierC` (all methods
+    except replace_sectors) -/
+def MemoOp (tbl : Table) (op : Op) : Prop := OpWF op ∧ OpWF2 tbl op ∧ TierC op
 
 theorem invs_run {env : Env} (hw : TableWF env.tbl) :
     ∀ (ops : List Op) (p : Partition), FullInv env.tbl p →
@@ -88,12 +89,13 @@ theorem invs_run {env : Env} (hw : TableWF env.tbl) :
     unfold step
     cases hs : stepE env p op with
     | error e => exact h
-    | ok r => obtain ⟨p', ret⟩ := r; exact fullInv_stepE hw h h1 h2 h3 hs
+    | ok r => obtain ⟨p', ret⟩ := r; exact fullInv_stepE2 hw h h1 h2 h3 hs
 
 /-- **memo_eq_recompute_partial.** After every sequence of add_sectors (proven or not),
     record_faults, declare_faults_recovered, recover_faults, activate_unproven, record_missed_post,
-    record_skipped_faults, pop_expired_sectors and pop_early_terminations (arbitrary sector sets,
-    epochs and quantisation; the infos handed to add_sectors are the table's infos of distinct
+    record_skipped_faults, pop_expired_sectors, terminate_sectors, reschedule_expirations and
+    pop_early_terminations — eleven of the twelve partition methods — with arbitrary sector sets,
+    epochs and quantisation (the infos handed to add_sectors are the table's infos of distinct
     sectors), EVERY memo of the partition equals the value recomputed from the individual sectors:
     * the four power memos `live_power`, `unproven_power`, `faulty_power`, `recovering_power` and
       `active_power()` equal the Level-1 sums over the sectors' statuses at the abstracted state;
@@ -104,8 +106,8 @@ theorem invs_run {env : Env} (hw : TableWF env.tbl) :
       and of the early sectors, `fee_deduction` = Σ daily fee of all sectors of the entry.
 
     PARTIAL — not yet proved (validated only by the differential correspondence and the
-    recomputation oracle on the real code): the operations terminate_sectors,
-    reschedule_expirations and replace_sectors; Deadline-level counters. -/
+    recomputation oracle on the real code): replace_sectors (it changes the sector table, which
+    is a fixed parameter of `run` here); Deadline-level counters. -/
 theorem memo_eq_recompute_partial (env : Env) (ops : List Op) (hw : TableWF env.tbl)
     (hops : ∀ op ∈ ops, MemoOp env.tbl op) :
     let p := run env Partition.new ops
@@ -196,8 +198,7 @@ theorem expset_validate_of_entryOK {tbl : Table} {F L : NatSet} {es : ExpSet} (h
 /-- **validate_state_never_fires_reachable_partial.** In every state reached by the operations of
     `memo_eq_recompute_partial` (non-negative powers, pledges and fees in the table) both
     `Partition::validate_state` and `ExpirationSet::validate_state` of every queue entry pass.
-    PARTIAL only in the set of operations (terminate_sectors, reschedule_expirations,
-    replace_sectors are not covered). -/
+    PARTIAL only in the set of operations (replace_sectors is not covered). -/
 theorem validate_state_holds_reachable (env : Env) (ops : List Op) (hw : TableWF env.tbl)
     (hn : TableNonneg2 env.tbl) (hops : ∀ op ∈ ops, MemoOp env.tbl op) :
     (run env Partition.new ops).validate = .ok () ∧
@@ -265,13 +266,13 @@ def exEnv : Env := { tbl := exTbl, qs := { unit := 10, offset := 3 } }
 def exInfos : List SectorInfo := exTbl.map (·.2)
 def exOps : List Op :=
   [.addSectors false exInfos, .recordFaults [1, 3] 40, .activateUnproven, .declareFaultsRecovered [1],
-   .recoverFaults, .recordMissedPost 60, .popExpiredSectors 70]
+   .recoverFaults, .terminateSectors 45 [2], .recordMissedPost 60, .popExpiredSectors 70]
 
 example : ∀ op ∈ exOps, MemoOp exEnv.tbl op := by
   intro op h
   simp only [exOps, List.mem_cons, List.not_mem_nil, or_false] at h
-  rcases h with rfl | rfl | rfl | rfl | rfl | rfl | rfl <;>
-    simp [MemoOp, OpWF, OpWF2, TierA, TierB, exInfos, exTbl, exEnv, nums, alookup]
+  rcases h with rfl | rfl | rfl | rfl | rfl | rfl | rfl | rfl <;>
+    simp [MemoOp, OpWF, OpWF2, TierA, TierB, TierC, exInfos, exTbl, exEnv, nums, alookup]
 example : TableWF exTbl := by
   intro n i h
   simp only [exTbl, alookup] at h
@@ -285,8 +286,8 @@ example : TableWF exTbl := by
 example : (run exEnv Partition.new (exOps.take 5)).faults = [3] := by decide
 example : (run exEnv Partition.new (exOps.take 5)).livePower = ⟨96, 392⟩ := by decide
 example : (run exEnv Partition.new (exOps.take 5)).activePower = ⟨64, 72⟩ := by decide
-example : (run exEnv Partition.new (exOps.take 6)).faultyPower = ⟨96, 392⟩ := by decide
-example : (run exEnv Partition.new exOps).terminated = [1, 2, 3] := by decide
+example : (run exEnv Partition.new (exOps.take 7)).faultyPower = ⟨64, 360⟩ := by decide
+example : (run exEnv Partition.new exOps).terminated = [2, 1, 3] := by decide
 example : (run exEnv Partition.new exOps).livePower = ⟨0, 0⟩ := by decide
 example : Alloc.allocate [1, 2] [3] .denyCollisions = .ok [1, 2, 3] := by rfl
 example : Alloc.allocate [1, 2] [2, 3] .denyCollisions = .error .illegalArgument := by rfl
